@@ -7,13 +7,16 @@
 //!  * oracle 3: and/&&, or/||, not/! evaluate identically;
 //!  * oracle 4: every identifier-shaped name other than a reserved word can be bound and
 //!    referenced in every expression position;
-//!  * correspondence: pest's Pratt parser vs the Lean `prattParse` on the real pairs.
+//!  * correspondence: pest's Pratt parser vs the Lean `prattParse` on the real pairs;
+//!  * correspondence: the character-level word model (`Ident.termWord`, `Ident.identifier`)
+//!    vs what the real parser makes of a one-word program / of the word at the start of a text.
 
 use crate::fmtcommon::*;
 use crate::progen::{self, GE, GenCfg, BINOPS};
 use crate::run::{eval_expr_src, new_heap};
 use crate::util::{guarded, Ctx, Model, Report, Rng};
 use blots_core::environment::Environment;
+use blots_core::parser::{get_pairs, Rule};
 use std::rc::Rc;
 
 /// the documented table: level (higher binds tighter) and right-associativity
@@ -336,7 +339,200 @@ pub fn run(ctx: &Ctx, rep: &mut Report) {
             rep.finding("oracle", "reserved-word-bound", &format!("{} = 7", w), "", "c10.reserved-bound");
         }
     }
+
+    // ---- 5. the word model vs the real parser ------------------------------------------------
+    check_word_model(ctx, &mut model, rep, &mut rng);
     rep.model_requests = model.requests;
+}
+
+/// What the real parser makes of the one-word program `w`: exactly one statement that is an
+/// expression consisting of exactly one term — a `bool`, `null`, `input_reference` or
+/// `identifier` pair spanning the whole text — or "none" (no parse, no statement, or another
+/// kind of term such as a number).
+fn real_word_class(w: &str) -> Result<(String, &'static str), String> {
+    guarded(|| {
+        let pairs = match get_pairs(w) {
+            Ok(p) => p,
+            Err(_) => return ("none".to_string(), "no-parse"),
+        };
+        let stmts: Vec<_> = pairs.filter(|p| p.as_rule() == Rule::statement).collect();
+        if stmts.len() != 1 {
+            return ("none".to_string(), "no-statement");
+        }
+        let inner: Vec<_> = stmts[0].clone().into_inner().collect();
+        if inner.len() != 1 || inner[0].as_rule() != Rule::expression {
+            return ("none".to_string(), "other");
+        }
+        let terms: Vec<_> = inner[0].clone().into_inner().collect();
+        if terms.len() != 1 || terms[0].as_str() != w {
+            return ("none".to_string(), "other");
+        }
+        match (terms[0].as_rule(), terms[0].as_str()) {
+            (Rule::bool, "true") => ("bool-t".to_string(), "bool"),
+            (Rule::bool, "false") => ("bool-f".to_string(), "bool"),
+            (Rule::null, _) => ("null".to_string(), "null"),
+            (Rule::input_reference, _) => ("input".to_string(), "input"),
+            (Rule::identifier, _) => ("ident".to_string(), "ident"),
+            _ => ("none".to_string(), "other"),
+        }
+    })
+}
+
+/// number of characters of the `identifier` pair that starts at offset 0 of `text`
+/// (wherever it sits in the tree: term, lambda argument, assignment target), "none" if the
+/// parsed text has no such pair; Err if the text does not parse
+fn real_ident_at_start(text: &str) -> Result<Option<String>, String> {
+    guarded(|| {
+        let pairs = match get_pairs(text) {
+            Ok(p) => p,
+            Err(_) => return None,
+        };
+        fn walk(p: pest::iterators::Pair<Rule>, found: &mut Option<usize>) {
+            if found.is_none() && p.as_rule() == Rule::identifier && p.as_span().start() == 0 {
+                *found = Some(p.as_str().chars().count());
+            }
+            for c in p.into_inner() {
+                walk(c, found);
+            }
+        }
+        let mut found = None;
+        for p in pairs {
+            walk(p, &mut found);
+        }
+        Some(found.map(|n| n.to_string()).unwrap_or_else(|| "none".to_string()))
+    })
+}
+
+fn check_word_model(ctx: &Ctx, model: &mut Model, rep: &mut Report, rng: &mut Rng) {
+    const NEAR: &[&str] = &["via", "into", "where", "input", "inputs", "constants", "inf", "infinity", "e", "pi", "max", "sum"];
+    let mut words: Vec<String> = vec![];
+    let upper_variants = |w: &str| -> Vec<String> {
+        let mut v = vec![w.to_uppercase()];
+        let mut cs: Vec<char> = w.chars().collect();
+        cs[0] = cs[0].to_ascii_uppercase();
+        v.push(cs.iter().collect());
+        let mut cs: Vec<char> = w.chars().collect();
+        let n = cs.len() - 1;
+        cs[n] = cs[n].to_ascii_uppercase();
+        v.push(cs.iter().collect());
+        v
+    };
+    const AFFIX: &[&str] = &["a", "e", "s", "x", "z", "A", "Z", "0", "1", "9", "_", "__", "_1", "1_", "x9_"];
+    for w in RESERVED.iter().chain(NEAR.iter()) {
+        words.push(w.to_string());
+        words.push(format!("#{}", w));
+        words.extend(upper_variants(w));
+        for a in AFFIX {
+            words.push(format!("{}{}", w, a));
+            words.push(format!("{}{}", a, w));
+            words.push(format!("#{}{}", w, a));
+        }
+        // every proper prefix of the word, and the word with one letter removed / doubled
+        for k in 1..w.len() {
+            words.push(w[..k].to_string());
+            words.push(format!("{}{}", &w[..k], &w[k + 1..]));
+            words.push(format!("{}{}", &w[..k], &w[k - 1..]));
+        }
+        for w2 in RESERVED {
+            words.push(format!("{}{}", w, w2));
+            words.push(format!("{}_{}", w, w2));
+        }
+        // a character that is not an ASCII letter / digit / underscore after or before the word
+        for x in ["é", "ß", "и", "中", "ｔ", "ı", "\u{212A}", "٣", "²"] {
+            words.push(format!("{}{}", w, x));
+            words.push(format!("{}{}", x, w));
+        }
+    }
+    for w in [
+        "", "_", "__", "_1", "_a", "a", "Z", "a1", "a_", "a_1", "a1_b2__c3", "A9", "x__", "aB1_", "if_", "_9",
+        "1", "12", "1a", "1_000", "1__0", "0x1f", "0b1", "0b2", "1e5", "1e", "9true", "0if", "1_", "007x",
+        "é", "aé", "éa", "ｔrue", "tru\u{435}", "ı", "\u{212A}", "٣", "a٣", "_é", "ﬁ", "a\u{301}",
+        "#", "#a", "#_", "#1", "#1a", "##a", "a#", "a#b", "#a#", "#é", "#aé", "#_1", "#A_", "#a1_b",
+    ] {
+        words.push(w.to_string());
+    }
+    // random identifier-shaped words (keyword fragments over-represented) and near misses
+    let starts: Vec<char> = ('a'..='z').chain('A'..='Z').chain(['_']).collect();
+    let rests: Vec<char> = ('a'..='z').chain('A'..='Z').chain('0'..='9').chain(['_', '_', '_']).collect();
+    let n_rand = ctx.budget(3000, 60000);
+    for _ in 0..n_rand {
+        let mut w = String::new();
+        if rng.chance(1, 12) {
+            w.push('#');
+        }
+        if rng.chance(1, 40) {
+            w.push(*rng.pick(&['0', '7', 'é', '#']));
+        }
+        let parts = 1 + rng.below(3);
+        for i in 0..parts {
+            match rng.below(4) {
+                0 => w.push_str(*rng.pick(RESERVED)),
+                1 => {
+                    let r = *rng.pick(RESERVED);
+                    w.push_str(&r[..1 + rng.below(r.len())]);
+                }
+                _ => {
+                    let n = 1 + rng.below(5);
+                    for j in 0..n {
+                        w.push(if i == 0 && j == 0 { *rng.pick(&starts) } else { *rng.pick(&rests) });
+                    }
+                }
+            }
+        }
+        if rng.chance(1, 40) {
+            w.push(*rng.pick(&['é', 'ß', '中', '#']));
+        }
+        words.push(w);
+    }
+    let reserved_or_literal = |w: &str| RESERVED.contains(&w);
+    for w in words.iter() {
+        let shaped = !w.is_empty()
+            && w.chars().all(|c| c.is_ascii_alphanumeric() || c == '_')
+            && !w.chars().next().unwrap().is_ascii_digit();
+        rep.case(&format!("word {}", w), true);
+        let m = model.ask(&format!("ident-class {}", crate::wire::hs(w)));
+        match real_word_class(w) {
+            Ok((real, how)) => {
+                rep.count(&format!("word-class.{}", how));
+                if real != m {
+                    rep.finding("model", "word-class", w, &format!("impl={} ({}) model={}", real, how, m), "c10.model.ident");
+                }
+                // model-free: the property itself on this word
+                if shaped && !reserved_or_literal(w) && real != "ident" {
+                    rep.finding("oracle", "plain-name-is-not-an-identifier", w, &format!("parses as {} ({})", real, how), "c10.names");
+                }
+                if reserved_or_literal(w) && real == "ident" {
+                    rep.finding("oracle", "reserved-word-is-an-identifier", w, "", "c10.reserved-bound");
+                }
+            }
+            Err(p) => rep.finding("oracle", "panic", w, &p, "c10.panic"),
+        }
+    }
+    // maximal munch: the word at the start of a longer text
+    const TAILS: &[&str] = &[
+        "+1", " + 1", "-1", "*y", "(1)", " (1)", "[0]", ".k", "!", " and y", " or y", " via y", "\n1", " // c", "==1",
+        "<=y", "??0", " = 1", "=1", " => 1", "=>1", "? => 1", " then", " x", "\ty", "&&y", "^2", ", y", ")", ".1", "#y", "é",
+    ];
+    let step = if ctx.thorough() { 1 } else { 5 };
+    for (i, w) in words.iter().enumerate() {
+        if i % step != (ctx.seed as usize) % step {
+            continue;
+        }
+        let tail = TAILS[(i / step) % TAILS.len()];
+        let text = format!("{}{}", w, tail);
+        match real_ident_at_start(&text) {
+            Ok(Some(real)) => {
+                rep.case(&format!("munch {}", text), true);
+                let m = model.ask(&format!("ident-munch {}", crate::wire::hs(&text)));
+                rep.count(if real == "none" { "word-munch.none" } else { "word-munch.ident" });
+                if real != m {
+                    rep.finding("model", "word-munch", &text, &format!("impl={} model={}", real, m), "c10.model.ident");
+                }
+            }
+            Ok(None) => rep.count("word-munch.text-rejected"),
+            Err(p) => rep.finding("oracle", "panic", &text, &p, "c10.panic"),
+        }
+    }
 }
 
 fn same_outcome(a: &str, b: &str) -> bool {
